@@ -163,8 +163,13 @@ func (d *Decoder) decodeNALUs(pkt *rtp.Packet) ([][]byte, error) {
 
 		d.fragmentsSize += len(pkt.Payload[2:])
 
-		if d.fragmentsSize > h264.MaxAccessUnitSize {
-			errSize := d.fragmentsSize
+		// NALUs already buffered for the same access unit count too
+		errSize := d.fragmentsSize
+		if d.frameBuffer != nil && pkt.Timestamp == d.frameBufferTimestamp {
+			errSize += d.frameBufferSize
+		}
+
+		if errSize > h264.MaxAccessUnitSize {
 			d.resetFragments()
 			return nil, fmt.Errorf("NALU size (%d) is too big, maximum is %d",
 				errSize, h264.MaxAccessUnitSize)
